@@ -6,7 +6,7 @@ bin (harness binary name), timeout {"quick": s, "thorough": s}, unclaimed ("reas
 """
 import json, os, glob
 
-HOOK_COMMITS = []
+HOOK_COMMITS = ["c8b93d9", "0289453"]
 
 TABLE = {}
 for _p in sorted(glob.glob(os.path.join(os.path.dirname(os.path.abspath(__file__)), "propcfg", "C*.json"))):
